@@ -31,10 +31,18 @@ Definition winv (st : wstate) : Prop :=
 Lemma wrap64_id : forall x, - two63 <= x < two63 -> wrap64 x = x.
 Proof. intros. unfold wrap64, two63, two64 in *. rewrite Z.mod_small; lia. Qed.
 
+(* newBbrSender with any initial / maximum window: 4 datagrams <= initial <= maximum <= 20000 datagrams *)
+Lemma new_sender_with_inv : forall m icw mcw, 0 < m <= c12_MaxPacketBufferSize ->
+  c12_minCongestionWindowPackets * m <= icw <= mcw -> mcw <= c12_MaxCongestionWindowPackets * m ->
+  winv (new_sender_with m icw mcw).
+Proof.
+  intros m icw mcw H Hi Hm. unfold winv, new_sender_with.
+  cbn [mds minCW maxCW initCW cwndMinPacing maxCWAdj cwnd recWin mode recState]. consts. lia.
+Qed.
+
 Lemma new_sender_inv : forall m, 0 < m <= c12_MaxPacketBufferSize -> winv (new_sender m).
 Proof.
-  intros m H. unfold winv, new_sender.
-  cbn [mds minCW maxCW initCW cwndMinPacing maxCWAdj cwnd recWin mode recState]. consts. lia.
+  intros m H. unfold new_sender. apply new_sender_with_inv; [exact H| |]; consts; lia.
 Qed.
 
 (* ---------------- GetCongestionWindow range *)
@@ -134,8 +142,37 @@ Lemma calc_cwnd_frame : forall st agg t h x ba ta, minCW st <= maxCW st -> minCW
   recState (calc_cwnd st agg t h x ba ta) = recState st /\
   minCW st <= cwnd (calc_cwnd st agg t h x ba ta) <= maxCW st.
 Proof.
-  intros st agg t h x ba ta Hmm Hc. unfold calc_cwnd, same_params, set_cwnd.
+  intros st agg t h x ba ta Hmm Hc. unfold calc_cwnd, cc_limits, same_params, set_cwnd.
   destruct (mode st =? c12_modeProbeRtt); projs; repeat split; auto; try lia.
+Qed.
+
+(* The upper limit has to come after BOTH growth branches.  With it applied in the STARTUP branch only
+   (`cwnd = min(cwnd+bytesAcked, max)` there, nothing after the full-bandwidth branch) the window invariant is
+   not preserved: at full bandwidth the window follows the target, which the code never caps. *)
+Definition calc_cwnd_cap_in_startup_only (st : wstate) (enableAckAggStartup : bool)
+           (target maxAckHeight excessAcked bytesAcked totalAcked : Z) : wstate :=
+  if mode st =? c12_modeProbeRtt then st else
+  let tw := cc_target_window st enableAckAggStartup target maxAckHeight excessAcked in
+  let c := if atFullBw st then cc_grow st tw bytesAcked totalAcked
+           else Z.min (cc_grow st tw bytesAcked totalAcked) (maxCW st) in
+  set_cwnd st (Z.max c (minCW st)).
+
+Lemma cap_in_startup_only_refuted : forall m, 0 < m <= c12_MaxPacketBufferSize ->
+  exists st target bytesAcked, winv st /\ mds st = m /\
+    maxCW st < cwnd (calc_cwnd_cap_in_startup_only st false target 0 0 bytesAcked 0) /\
+    cwnd (calc_cwnd st false target 0 0 bytesAcked 0) = maxCW st.
+Proof.
+  intros m Hm.
+  set (mx := c12_MaxCongestionWindowPackets * m).
+  exists (set_mode (set_cwnd (new_sender m) mx) c12_modeProbeBw true), (2 * mx), m.
+  assert (W : wrap64 (2 * mx + 0) = 2 * mx) by (rewrite Z.add_0_r; apply wrap64_id; unfold mx, two63; consts; lia).
+  assert (W2 : wrap64 (mx + m) = mx + m) by (apply wrap64_id; unfold mx, two63; consts; lia).
+  split; [|split; [reflexivity|]].
+  - unfold winv, new_sender, new_sender_with, set_mode, set_cwnd. projs. unfold mx. consts. lia.
+  - unfold calc_cwnd_cap_in_startup_only, calc_cwnd, cc_limits, cc_grow, cc_target_window, set_mode, set_cwnd,
+      new_sender, new_sender_with. projs. fold mx. rewrite W, W2.
+    replace (c12_modeProbeBw =? c12_modeProbeRtt) with false by (consts; reflexivity). projs.
+    unfold mx. consts. lia.
 Qed.
 
 Lemma calc_recovery_frame : forall st ba bl,
@@ -220,8 +257,43 @@ Proof.
 Qed.
 
 (* ---------------- pacing floor, CanSend *)
-Lemma pacer_floor : forall bps, c12_minBps <= bandwidth_for_pacer bps.
-Proof. intros. unfold bandwidth_for_pacer. brkz; lia. Qed.
+Lemma pacer_floor : forall rate, c12_minBps <= bandwidth_for_pacer rate.
+Proof. intros. unfold bandwidth_for_pacer. cbv zeta. brkz; lia. Qed.
+
+(* float64(x) is x itself below 2^53 *)
+Lemma f64_small : forall x, x < 9007199254740992 -> f64_of_u64 x = x.
+Proof. intros x H. unfold f64_of_u64. replace (x <? 9007199254740992) with true by lia. reflexivity. Qed.
+
+(* the value handed to the pacer is max(floor, bytes per second), the bytes-per-second value being the
+   pacing rate (BITS per second) divided by BytesPerSecond *)
+Lemma pacer_is_max : forall rate,
+  bandwidth_for_pacer rate = Z.max c12_minBps (f64_of_u64 (u64 rate) / c12_BytesPerSecond).
+Proof. intros. unfold bandwidth_for_pacer, pacer_bps. cbv zeta. brkz; lia. Qed.
+
+Lemma pacer_units : forall rate, 0 <= rate < 9007199254740992 ->
+  bandwidth_for_pacer rate = Z.max 65536 (rate / 8) /\
+  (rate < 8 * 65536 -> bandwidth_for_pacer rate = 65536) /\
+  (8 * 65536 <= rate -> bandwidth_for_pacer rate = rate / 8).
+Proof.
+  intros rate H. rewrite pacer_is_max.
+  assert (U : u64 rate = rate) by (unfold u64, two64; apply Z.mod_small; lia).
+  rewrite U, f64_small by lia. consts. unfold c12_BytesPerSecond.
+  split; [reflexivity|]. split; intros; lia.
+Qed.
+
+(* the test on the pacing rate itself (bits/s against a bytes/s constant), division afterwards, is a different
+   function: it hands the pacer less than the floor for every rate in [65536, 8*65536) bits/s *)
+Definition bandwidth_for_pacer_floor_before_division (rate : Z) : Z :=
+  if rate <? c12_minBps then c12_minBps else rate / c12_BytesPerSecond.
+
+Lemma floor_before_division_refuted : forall rate, c12_minBps <= rate < c12_BytesPerSecond * c12_minBps ->
+  bandwidth_for_pacer_floor_before_division rate < c12_minBps /\ bandwidth_for_pacer rate = c12_minBps.
+Proof.
+  intros rate H. unfold bandwidth_for_pacer_floor_before_division.
+  replace (rate <? c12_minBps) with false by lia.
+  destruct (pacer_units rate) as (_ & L & _); [consts; unfold c12_BytesPerSecond in *; lia|].
+  consts. unfold c12_BytesPerSecond in *. split; [lia|]. apply L. lia.
+Qed.
 
 Lemma can_send_below_min : forall st b, winv st -> b < c12_minCongestionWindowPackets * mds st ->
   can_send st b = true.
